@@ -749,7 +749,8 @@ def owners (ms : List Module) (f : Key) : List (Key × Key × Key) := ms.flatMap
     is "." with the root's includes and excludes unchanged (they are root-relative in both
     worlds).  A v1beta1 module with several roots loses its name.  `trL` / `trB` stand for
     `equivalentLintConfigInV2` / `equivalentBreakingConfigInV2` (rule-id translation, not
-    modelled). -/
+    modelled; `equivLint` / `equivBreaking` below are their shape as far as the "switched off"
+    flag goes). -/
 def migrateModule (trL : Lint → Lint) (trB : Breaking → Breaking) (m : Module) : List Module :=
   m.roots.map fun r =>
     ⟨m.dirPath ++ r.root, if m.roots.length > 1 then [] else m.name,
@@ -765,6 +766,34 @@ def migrateFile (trL : Lint → Lint) (trB : Breaking → Breaking) (ws : List M
 
 /-- How a v1 owner triple is named after migration: module `dir/root`, root ".", same path. -/
 def migratedOwner (o : Key × Key × Key) : Key × Key × Key := (o.1 ++ o.2.1, [], o.2.2)
+
+/-! ### migration of a check config: the "switched off" flag
+
+  `equivalentCheckConfigInV2` (bufmigrate/migrator.go) AFTER the fix
+  handoff/C16-fix-migrate-disabled-module.diff: a check config that is disabled (an ignore path
+  named the module directory itself) stays disabled — `NewDisabledCheckConfig(FileVersionV2)` —
+  and only an enabled config goes through the rule-id translation.  `tr` stands for that
+  translation (`NewEnabledCheckConfig(FileVersionV2, …)`, rule tables not modelled); what matters
+  here is that it builds an ENABLED config (`enabledOf` is the simplest such function).
+  Before the fix every config went through the translation (`equivCheckOld`), so a module whose
+  checks were switched off had them switched on by `buf config migrate`. -/
+
+def equivCheck (tr : Check → Check) (c : Check) : Check :=
+  if c.disabled then Check.disabledCfg else tr c
+
+/-- pre-fix behaviour -/
+def equivCheckOld (tr : Check → Check) (c : Check) : Check := tr c
+
+/-- `equivalentLintConfigInV2`: the other lint settings are copied. -/
+def equivLint (tr : Check → Check) (l : Lint) : Lint := { l with chk := equivCheck tr l.chk }
+/-- `equivalentBreakingConfigInV2` -/
+def equivBreaking (tr : Check → Check) (b : Breaking) : Breaking := { b with chk := equivCheck tr b.chk }
+
+def equivLintOld (tr : Check → Check) (l : Lint) : Lint := { l with chk := equivCheckOld tr l.chk }
+def equivBreakingOld (tr : Check → Check) (b : Breaking) : Breaking := { b with chk := equivCheckOld tr b.chk }
+
+/-- `NewEnabledCheckConfig` as far as the flag goes. -/
+def enabledOf (c : Check) : Check := { c with disabled := false }
 
 /-! ### strings -> model values -/
 
